@@ -1,6 +1,7 @@
 import MTfitVerif.Model.Convert
 import MTfitVerif.Model.Potency
 import MTfitVerif.Real.Inst
+import MTfitVerif.Real.ConvertLemmasSpectrum
 /-
   C14 — eigen-decomposition and source-type coordinates are faithful and scale-free.
   (That NumPy's symmetric eigen-solver returns real, orthonormal, ordered axes that rebuild the
@@ -13,37 +14,91 @@ def smul3 (k : ℝ) (e : V3 ℝ) : V3 ℝ := ⟨k * e.x, k * e.y, k * e.z⟩
 
 /-- descending sort: result is ordered and is a rearrangement of the input -/
 theorem sort3_sorted (e : V3 ℝ) : (sort3 e).z ≤ (sort3 e).y ∧ (sort3 e).y ≤ (sort3 e).x := by
-  sorry
+  rw [sort3_real']
+  simp only
+  rcases le_total e.x e.y with h1 | h1 <;> rcases le_total e.y e.z with h2 | h2 <;>
+    rcases le_total e.x e.z with h3 | h3 <;>
+    simp only [max_eq_left, max_eq_right, min_eq_left, min_eq_right, h1, h2, h3] <;>
+    constructor <;> linarith
 
 theorem sort3_perm (e : V3 ℝ) : [(sort3 e).x, (sort3 e).y, (sort3 e).z].Perm [e.x, e.y, e.z] := by
-  sorry
+  cases e; exact sort3_perm_real _ _ _
 
 /-- sorting does not depend on the order of the input -/
 theorem sort3_order_inv (a b cc : ℝ) :
     sort3 ⟨a, b, cc⟩ = sort3 ⟨b, a, cc⟩ ∧ sort3 ⟨a, b, cc⟩ = sort3 ⟨a, cc, b⟩ ∧ sort3 ⟨a, b, cc⟩ = sort3 ⟨cc, b, a⟩ := by
-  sorry
+  simp only [sort3_real]
+  refine ⟨?_, ?_, ?_⟩
+  · rw [max_comm a b, min_comm a b, add_comm a b]
+  · rw [max_assoc, max_comm b cc, ← max_assoc, min_assoc, min_comm b cc, ← min_assoc, add_right_comm]
+  · rw [max_comm (max a b) cc, max_comm a b, ← max_assoc, min_comm (min a b) cc, min_comm a b, ← min_assoc]
+    congr 2; ring
 
-/-- an orthonormal eigen-system rebuilds its tensor: `(Σ eᵢ vᵢvᵢᵀ) vⱼ = eⱼ vⱼ` -/
+set_option linter.unusedVariables false in
+/-- an orthonormal eigen-system rebuilds its tensor: `(Σ eᵢ vᵢvᵢᵀ) vⱼ = eⱼ vⱼ`
+    (stated for `j = T`; this instance only needs `hT`, `hTN`, `hTP`; the `N` and `P` instances
+    are `rebuild_eigen_N`, `rebuild_eigen_P` below) -/
 theorem rebuild_eigen (T N P e : V3 ℝ) (hT : V3.dot T T = 1) (hN : V3.dot N N = 1) (hP : V3.dot P P = 1)
     (hTN : V3.dot T N = 0) (hTP : V3.dot T P = 0) (hNP : V3.dot N P = 0) :
     let m := rebuild T N P e
     (⟨m.xx * T.x + m.xy * T.y + m.xz * T.z, m.xy * T.x + m.yy * T.y + m.yz * T.z, m.xz * T.x + m.yz * T.y + m.zz * T.z⟩ : V3 ℝ)
       = smul3 e.x T := by
-  sorry
+  simp only [rebuild, smul3, V3.dot] at *
+  congr 1
+  · linear_combination (e.x * T.x) * hT + (e.y * N.x) * hTN + (e.z * P.x) * hTP
+  · linear_combination (e.x * T.y) * hT + (e.y * N.y) * hTN + (e.z * P.y) * hTP
+  · linear_combination (e.x * T.z) * hT + (e.y * N.z) * hTN + (e.z * P.z) * hTP
+
+theorem rebuild_eigen_N (T N P e : V3 ℝ) (hN : V3.dot N N = 1)
+    (hTN : V3.dot T N = 0) (hNP : V3.dot N P = 0) :
+    let m := rebuild T N P e
+    (⟨m.xx * N.x + m.xy * N.y + m.xz * N.z, m.xy * N.x + m.yy * N.y + m.yz * N.z, m.xz * N.x + m.yz * N.y + m.zz * N.z⟩ : V3 ℝ)
+      = smul3 e.y N := by
+  simp only [rebuild, smul3, V3.dot] at *
+  congr 1
+  · linear_combination (e.x * T.x) * hTN + (e.y * N.x) * hN + (e.z * P.x) * hNP
+  · linear_combination (e.x * T.y) * hTN + (e.y * N.y) * hN + (e.z * P.y) * hNP
+  · linear_combination (e.x * T.z) * hTN + (e.y * N.z) * hN + (e.z * P.z) * hNP
+
+theorem rebuild_eigen_P (T N P e : V3 ℝ) (hP : V3.dot P P = 1)
+    (hTP : V3.dot T P = 0) (hNP : V3.dot N P = 0) :
+    let m := rebuild T N P e
+    (⟨m.xx * P.x + m.xy * P.y + m.xz * P.z, m.xy * P.x + m.yy * P.y + m.yz * P.z, m.xz * P.x + m.yz * P.y + m.zz * P.z⟩ : V3 ℝ)
+      = smul3 e.z P := by
+  simp only [rebuild, smul3, V3.dot] at *
+  congr 1
+  · linear_combination (e.x * T.x) * hTP + (e.y * N.x) * hNP + (e.z * P.x) * hP
+  · linear_combination (e.x * T.y) * hTP + (e.y * N.y) * hNP + (e.z * P.y) * hP
+  · linear_combination (e.x * T.z) * hTP + (e.y * N.z) * hNP + (e.z * P.z) * hP
 
 /-- lune coordinates depend only on the eigenvalue ratios: unchanged by positive scaling … -/
 theorem eToGd_scale_inv (e : V3 ℝ) {k : ℝ} (hk : 0 < k) : eToGd (smul3 k e) = eToGd e := by
-  sorry
+  cases e; exact eToGd_scale _ _ _ hk
 
 /-- … and by the order in which the eigenvalues are given -/
 theorem eToGd_order_inv (a b cc : ℝ) :
     eToGd ⟨a, b, cc⟩ = eToGd ⟨b, a, cc⟩ ∧ eToGd ⟨a, b, cc⟩ = eToGd ⟨a, cc, b⟩ := by
-  sorry
+  obtain ⟨h1, h2, -⟩ := sort3_order_inv a b cc
+  unfold eToGd
+  rw [← h1, ← h2]
+  simp only [flt_eqb, Bool.and_eq_true, decide_eq_true_eq]
+  constructor
+  · by_cases h : a = b ∧ b = cc
+    · obtain ⟨rfl, rfl⟩ := h; rfl
+    · have h' : ¬ (b = a ∧ a = cc) := fun ⟨p, q⟩ => h ⟨p.symm, p.trans q⟩
+      rw [if_neg h, if_neg h']
+  · by_cases h : a = b ∧ b = cc
+    · obtain ⟨rfl, rfl⟩ := h; rfl
+    · have h' : ¬ (a = cc ∧ cc = b) := fun ⟨p, q⟩ => h ⟨p.trans q, q.symm⟩
+      rw [if_neg h, if_neg h']
 
 /-- Hudson coordinates of the sorted spectrum: scale invariance -/
 theorem hudson_scale_inv (e : V3 ℝ) {k : ℝ} (hk : 0 < k) :
     eToTk (sort3 (smul3 k e)) = eToTk (sort3 e) := by
-  sorry
+  cases e with | mk a b cc =>
+  simp only [smul3]
+  rw [sort3_scale a b cc hk.le]
+  exact eToTk_scale _ hk
 
 /-- Hudson coordinates of the special sources: double-couple at (0,0), isotropic at (0,±1),
     CLVD at (∓1, 0) -/
@@ -53,48 +108,59 @@ theorem hudson_special_points :
     tkToUv (eToTk (⟨-1, -1, -1⟩ : V3 ℝ)).1 (eToTk (⟨-1, -1, -1⟩ : V3 ℝ)).2 = (0, -1) ∧
     tkToUv (eToTk (⟨2, -1, -1⟩ : V3 ℝ)).1 (eToTk (⟨2, -1, -1⟩ : V3 ℝ)).2 = (-1, 0) ∧
     tkToUv (eToTk (⟨1, 1, -2⟩ : V3 ℝ)).1 (eToTk (⟨1, 1, -2⟩ : V3 ℝ)).2 = (1, 0) := by
-  sorry
+  refine ⟨?_, ?_, ?_, ?_, ?_⟩ <;> norm_num [eToTk, tkToUv]
 
-/-- Hudson coordinates of any sorted, non-zero spectrum lie in `|u| ≤ 4/3`, `|v| ≤ 1` -/
+set_option linter.unusedVariables false in
+/-- Hudson coordinates of any sorted, non-zero spectrum lie in `|u| ≤ 4/3`, `|v| ≤ 1`.
+    (Proved through `|τ| + |k| ≤ 1`, `eToTk_abs_le`.  The non-zero hypothesis `hne` is not needed
+    over ℝ because Mathlib's `x / 0 = 0`; it is kept since for the all-zero spectrum the
+    floating-point code divides 0 by 0.) -/
 theorem hudson_bounds (e : V3 ℝ) (h1 : e.y ≤ e.x) (h2 : e.z ≤ e.y) (hne : e.x ≠ 0 ∨ e.z ≠ 0) :
     |(tkToUv (eToTk e).1 (eToTk e).2).1| ≤ 4 / 3 ∧ |(tkToUv (eToTk e).1 (eToTk e).2).2| ≤ 1 := by
-  sorry
+  exact tkToUv_bounds (eToTk_abs_le e h1 h2)
 
 /-- crack + double-couple parameters → lune coordinates → parameters is the identity on
     `[0, π/2) × (−1, 1/2)` -/
 theorem cdc_roundtrip {a ν : ℝ} (ha0 : 0 ≤ a) (ha1 : a < π / 2) (hν0 : -1 < ν) (hν1 : ν < 1 / 2) :
     gdToCdc (cdcToGd a ν).1 (cdcToGd a ν).2 = (a, ν) := by
-  sorry
+  exact cdc_roundtrip_real ha0 ha1 hν0 hν1
 
 /-- at an opening angle of exactly π/2 the source is the pure double-couple whatever the Poisson
     ratio, and the opening angle is recovered -/
 theorem cdc_at_pi_div_two (ν : ℝ) : cdcToGd (π / 2) ν = (0, 0) ∧ (gdToCdc 0 0).1 = π / 2 := by
-  sorry
+  constructor
+  · simp [cdcToGd]
+  · simp [gdToCdc]
 
 /-! ### potency tensor -/
 
 /-- the index permutation between six-vector and Voigt order is an involution -/
 theorem perm_involutive (v : List ℝ) (h : v.length = 6) : perm (perm v) = v := by
-  sorry
+  match v, h with
+  | [a, b, c, d, e, f], _ => simp [perm]
 
 /-- the stiffness matrix is symmetric -/
 theorem cvoigt_symmetric (cc : List ℝ) (i j : Nat) (hi : i < 6) (hj : j < 6) :
     ((cvoigt cc).getD i []).getD j 0 = ((cvoigt cc).getD j []).getD i 0 := by
-  sorry
+  interval_cases i <;> interval_cases j <;> simp [cvoigt]
 
+set_option linter.unusedVariables false in
 /-- converting a moment tensor to a potency tensor inverts multiplication by the stiffness matrix:
-    `C · D = M` for every stiffness tensor for which the linear solver returns a solution -/
+    `C · D = M` for every stiffness tensor for which the linear solver returns a solution
+    (`hm` is not needed: `perm` pads a short input with zeros) -/
 theorem mt6cToD6_inverts (solve : List (List ℝ) → List ℝ → List ℝ) (cc m : List ℝ) (hm : m.length = 6)
     (hsolve : matVec (cvoigt cc) (solve (cvoigt cc) (perm m)) = perm m)
     (hlen : (solve (cvoigt cc) (perm m)).length = 6) :
     matVec (cvoigt cc) (perm (mt6cToD6 solve cc m)) = perm m := by
-  sorry
+  unfold mt6cToD6
+  rw [perm_involutive _ hlen, hsolve]
 
 /-- isotropic stiffness acts as `M = λ tr(D) I + 2μ D` -/
 theorem isotropic_apply (l mu d0 d1 d2 d3 d4 d5 : ℝ) :
     matVec (cvoigt (isotropicC l mu)) [d0, d1, d2, d3, d4, d5]
       = [l * (d0 + d1 + d2) + 2 * mu * d0, l * (d0 + d1 + d2) + 2 * mu * d1, l * (d0 + d1 + d2) + 2 * mu * d2,
          2 * mu * d3, 2 * mu * d4, 2 * mu * d5] := by
-  sorry
+  simp [matVec, cvoigt, isotropicC, g, dot]
+  refine ⟨?_, ?_, ?_⟩ <;> ring
 
 end MTfitVerif.C14
